@@ -51,6 +51,12 @@
 //!   stayed green (the string pool had no value between two matching strings that does not match); the pool was
 //!   extended ("aab", "ac", "acb", "abd"); the re-run is `VF_PROBE=c22p1` in probes/run-all.sh, verdict in
 //!   probes/run-all-log.txt: VIOLATION after 5 047 cases (`c2 NOT LIKE 'a%b'`, container ["ab".."acb"] holding "abd").
+//! * seeded defect /verif/seeded/C22-a (CAST/TRY_CAST around a negated column loses the operator flip): missed at
+//!   first — not because of the `neg-of-int-min` signature (it only matches when a ROW holds the type's MIN) but
+//!   because the term grammar had no nested shape: casts and negations each wrapped a bare column only. The term
+//!   `T::CastNeg` (`CAST(-c AS T)` / `TRY_CAST(-c AS T)`, weight 3 of 21) was added; verdict with
+//!   `mutrun /verif/seeded/C22-a/patch.diff -- ./check C22 quick`: see SEEDED-VERDICT below.
+//! SEEDED-VERDICT: pending
 //! Candidate repairs: /verif/fixes/C22-*.diff (one per finding); with all four applied the four regression cases
 //! pass and `./check C22 quick` exits 0 (seeds 0, 1) — probes/run-all-log.txt.
 use std::collections::HashSet;
@@ -347,6 +353,8 @@ pub enum T {
     Col(u16),
     Cast { c: u16, to: u16, try_cast: bool },
     Neg(u16),
+    /// CAST / TRY_CAST around a negated column: `CAST(-c AS T)`
+    CastNeg { c: u16, to: u16, try_cast: bool },
     /// col <op> literal (other = None) or col <op> other column of the same type
     Arith { op: u8, c: u16, lit: u16, other: Option<u16> },
     /// NOT boolcol
@@ -503,6 +511,19 @@ impl Resolver<'_> {
                 Some((i, ty)) => {
                     self.lab("term:neg");
                     RT::Neg(Box::new(RT::Col(i, ty)))
+                }
+                None => {
+                    let (i, ty) = self.col(*c);
+                    RT::Col(i, ty)
+                }
+            },
+            T::CastNeg { c, to, try_cast } => match self.col_where(*c, |t| t.supports_neg()) {
+                Some((i, ty)) => {
+                    let targets = ty.cast_targets();
+                    let to = targets[pick_index(*to, targets.len())];
+                    self.lab("term:cast-of-neg");
+                    self.lab(if *try_cast { "term:try_cast" } else { "term:cast" });
+                    RT::Cast(Box::new(RT::Neg(Box::new(RT::Col(i, ty)))), to, *try_cast)
                 }
                 None => {
                     let (i, ty) = self.col(*c);
@@ -1037,6 +1058,7 @@ fn term_s() -> BoxedStrategy<T> {
         10 => any::<u16>().prop_map(T::Col),
         4 => (any::<u16>(), any::<u16>(), any::<bool>()).prop_map(|(c, to, try_cast)| T::Cast { c, to, try_cast }),
         2 => any::<u16>().prop_map(T::Neg),
+        3 => (any::<u16>(), any::<u16>(), any::<bool>()).prop_map(|(c, to, try_cast)| T::CastNeg { c, to, try_cast }),
         1 => (any::<u8>(), any::<u16>(), any::<u16>(), prop::option::weighted(0.3, any::<u16>())).prop_map(|(op, c, lit, other)| T::Arith { op, c, lit, other }),
         1 => any::<u16>().prop_map(T::NotCol),
     ]
@@ -1143,7 +1165,8 @@ impl Property for C22 {
 ///   runs on the rewritten predicate into `decimal_col op lit.00` although the cast truncates (-1.50 -> -1).
 /// * `try-cast-is-not-distinct-from-null`: `TRY_CAST(col AS T) IS NOT DISTINCT FROM NULL` is rewritten to
 ///   `col_null_count > 0`, but TRY_CAST also yields NULL for values that do not fit T.
-/// * `neg-of-int-min`: the predicate negates an integer column (`-c`) and some row holds that type's MIN
+/// * `neg-of-int-min`: the predicate negates an integer column (`-c`, also inside `CAST(-c AS T)`) and some ROW of that
+///   column holds the type's MIN — nothing else about negations is excluded
 ///   (NegativeExpr wraps at row level, the pruning rewrite `-c op lit -> c op' -lit` assumes it does not).
 fn known_sig(case: &Case) -> Option<String> {
     fn terms<'a>(p: &'a P, out: &mut Vec<&'a T>) {
@@ -1166,6 +1189,10 @@ fn known_sig(case: &Case) -> Option<String> {
                 let mut rs = Resolver { cols, labels: vec![], used_cols: vec![] };
                 let (_, ty) = rs.col(*c);
                 lit.null && CMP_OPS[pick_index((*op as u16) << 8, CMP_OPS.len())] == Operator::IsNotDistinctFrom && !ty.cast_targets().is_empty()
+            }
+            P::Cmp { op, t: T::CastNeg { c, try_cast: true, .. }, lit, .. } => {
+                let mut rs = Resolver { cols, labels: vec![], used_cols: vec![] };
+                lit.null && CMP_OPS[pick_index((*op as u16) << 8, CMP_OPS.len())] == Operator::IsNotDistinctFrom && rs.col_where(*c, |t| t.supports_neg()).is_some()
             }
             P::Not(a) => tcn(a, cols),
             P::And(a, b) | P::Or(a, b) => tcn(a, cols) || tcn(b, cols),
@@ -1190,8 +1217,23 @@ fn known_sig(case: &Case) -> Option<String> {
             }
         }
     }
+    for t in &ts {
+        if let T::CastNeg { c, to, .. } = t {
+            let mut rs = Resolver { cols: &case.cols, labels: vec![], used_cols: vec![] };
+            if let Some((_, ty)) = rs.col_where(*c, |t| t.supports_neg()) {
+                let targets = ty.cast_targets();
+                let to = targets[pick_index(*to, targets.len())];
+                if to == Ty::Bool {
+                    return Some("cast-numeric-to-bool".into());
+                }
+                if ty == Ty::Dec92 && to.is_int() {
+                    return Some("cast-decimal-to-int".into());
+                }
+            }
+        }
+    }
     for t in ts {
-        if let T::Neg(c) = t {
+        if let T::Neg(c) | T::CastNeg { c, .. } = t {
             let mut rs = Resolver { cols: &case.cols, labels: vec![], used_cols: vec![] };
             if let Some((ci, ty)) = rs.col_where(*c, |t| t.supports_neg()) {
                 if let Some((lo, _)) = ty.int_range() {
